@@ -17,7 +17,18 @@ fn pick<T: Clone>(w: &mut World, v: &[T]) -> T {
     v[i].clone()
 }
 
+thread_local! {
+    /// set by `build`: trading on the adaptive-fee pool P2 is not enabled yet
+    static TRADE_PENDING: std::cell::Cell<bool> = std::cell::Cell::new(false);
+}
+
 pub fn build(seed: u64, t22: bool, rec: &mut Recorder) -> World {
+    build_with(seed, t22, false, rec)
+}
+
+/// `force_pending`: P2 is an adaptive-fee pool whose trading is enabled only later
+pub fn build_with(seed: u64, t22: bool, force_pending: bool, rec: &mut Recorder) -> World {
+    TRADE_PENDING.with(|c| c.set(false));
     let mut w = World::new(seed);
     w.init_config("C1", 300);
     for u in ["U1", "U2"] {
@@ -38,7 +49,7 @@ pub fn build(seed: u64, t22: bool, rec: &mut Recorder) -> World {
         w.must_ix(&ix);
     }
     // an adaptive tier for one of the pools (sometimes)
-    let adaptive = w.rng.gen_bool(0.4);
+    let adaptive = w.rng.gen_bool(0.4) || force_pending;
     if adaptive {
         let c = crate::world2::AfConstants { filter_period: 10, decay_period: 120, reduction_factor: 5000, adaptive_fee_control_factor: pick(&mut w, &[0u32, 4000, 50000]), max_volatility_accumulator: 350_000, tick_group_size: pick(&mut w, &[8u16, 64]), major_swap_threshold_ticks: 64 };
         let f = w.funder;
@@ -52,7 +63,8 @@ pub fn build(seed: u64, t22: bool, rec: &mut Recorder) -> World {
             let f = w.funder;
             // trading on the adaptive-fee pool is sometimes enabled only later: until then every swap through it fails,
             // as a single swap and as either leg of a two-hop
-            let te = if w.rng.gen_bool(0.5) { Some((w.now + pick(&mut w, &[30i64, 600, 5000])) as u64) } else { None };
+            let te = if w.rng.gen_bool(0.5) || force_pending { Some((w.now + pick(&mut w, &[30i64, 600, 5000])) as u64) } else { None };
+            TRADE_PENDING.with(|c| c.set(te.is_some()));
             let ix = w.ix_init_pool_adaptive(name, "C1", a, b, 1024, sp, p, f, te);
             w.must_ix(&ix);
         } else {
@@ -111,7 +123,7 @@ fn random_limit(w: &mut World, pool: &str, a_to_b: bool) -> u128 {
 pub fn run(seed: u64, worlds: usize, attempts: usize, rec: &mut Recorder) {
     for wi in 0..worlds {
         let t22 = wi % 2 == 1;
-        let mut w = build(seed.wrapping_mul(7919).wrapping_add(wi as u64), t22, rec);
+        let mut w = build_with(seed.wrapping_mul(7919).wrapping_add(wi as u64), t22, wi % 4 == 0, rec);
         let legs: Vec<(&str, &str, bool, bool)> = vec![
             ("P1", "P2", true, true),   // A->B->R
             ("P2", "P1", false, false), // R->B->A
@@ -123,7 +135,10 @@ pub fn run(seed: u64, worlds: usize, attempts: usize, rec: &mut Recorder) {
             ("P1", "P2", true, false),  // intermediate mismatch (invalid)
             ("P3", "P2", false, true),  // intermediate mismatch (invalid)
         ];
+        let pending = TRADE_PENDING.with(|c| c.get());
         for att in 0..attempts {
+            // while trading on P2 is not enabled yet: no clock steps, routes through P2 (as first and as second leg)
+            let hold = pending && att < 16;
             if att % 40 == 7 {
                 same_pool_at_array_edge(&mut w, t22, rec);
             }
@@ -136,15 +151,15 @@ pub fn run(seed: u64, worlds: usize, attempts: usize, rec: &mut Recorder) {
                 let ix = w.ix_swap(pool, "U2", amt, 0, 0, true, a_to_b, v2);
                 rec.exec(&mut w, &ix, false, json!("move"));
             }
-            if w.rng.gen_bool(0.3) {
+            if !hold && w.rng.gen_bool(0.3) {
                 let dt = pick(&mut w, &[1i64, 11, 130, 4000]);
                 rec.tick_clock(&mut w, dt);
             }
-            let (p1, p2, d1, d2) = if w.rng.gen_bool(0.9) { legs[w.rng.gen_range(0..6)] } else { legs[w.rng.gen_range(6..legs.len())] };
+            let (p1, p2, d1, d2) = if hold { legs[[0usize, 1, 4, 5][att % 4]] } else if w.rng.gen_bool(0.9) { legs[w.rng.gen_range(0..6)] } else { legs[w.rng.gen_range(6..legs.len())] };
             let exact_in = w.rng.gen_bool(0.6);
             let amount = log_uniform(&mut w, 3, 42) as u64;
             let (l1, l2) = (random_limit(&mut w, p1, d1), random_limit(&mut w, p2, d2));
-            let v2 = t22 || w.rng.gen_bool(0.5);
+            let v2 = t22 || if hold { att % 8 < 4 } else { w.rng.gen_bool(0.5) };
             let vac = if exact_in { 0 } else { u64::MAX };
             // (1) the two-hop with a vacuous threshold on a copy -> realised amounts
             let mut t = w.clone();
